@@ -811,6 +811,12 @@ pub fn extract_item(sf: &SourceFile, it: &Value, cfg: &Config) -> std::result::R
             let last = ss.last().unwrap();
             range = (sf.range(first.span()).0, sf.range(last.span()).1);
             wrap_needed = true;
+            // a statement range that ends in the block's tail expression: a `loop` there is the fragment's tail
+            if it["wrap_tail"].is_null() {
+                if let Some(Stmt::Expr(x, None)) = ss.last() {
+                    rw.tail_loop = tail_loop_of(sf, x);
+                }
+            }
             for st in ss.iter() {
                 rw.visit_stmt(st);
             }
@@ -934,6 +940,19 @@ pub fn extract_item(sf: &SourceFile, it: &Value, cfg: &Config) -> std::result::R
 
     let rendered = render::render(sf, range, &rw.edits);
     let mut text = rendered.text.clone();
+    // R-self:sig -- exact textual replacements in the item's signature named by the unit file (e.g. dropping
+    // type parameters that are unused after R-self:type); each must occur exactly once
+    let mut sig_applied: Vec<Value> = vec![];
+    if let Some(ts) = it["sig_subst"].as_object() {
+        for (k, v) in ts {
+            let v = v.as_str().unwrap_or("");
+            if text.matches(k.as_str()).count() != 1 {
+                return Err(("lost-anchor", format!("sig_subst `{}` does not occur exactly once in `{}`", k, path)));
+            }
+            text = text.replacen(k.as_str(), v, 1);
+            sig_applied.push(json!({"rule": "R-self:sig", "line": sf.line_of(range.0), "from": k}));
+        }
+    }
     let lmap = render::line_map(sf, &rendered);
     let mut pre_lines = 0usize;
     if wrap_needed {
@@ -984,11 +1003,12 @@ pub fn extract_item(sf: &SourceFile, it: &Value, cfg: &Config) -> std::result::R
     }
     let mut lm: Vec<usize> = vec![0; pre_lines];
     lm.extend(lmap);
-    let applied: Vec<Value> = rw
+    let mut applied: Vec<Value> = rw
         .applied
         .iter()
         .map(|a| json!({"rule": a.rule, "line": a.line, "from": a.from}))
         .collect();
+    applied.extend(sig_applied);
     Ok(json!({
         "id": id,
         "file": sf.path,
